@@ -126,6 +126,9 @@ where
 
     while n < n_max {
         let guess = f(initial);
+        if (guess - initial).abs() <= tol {
+            return Ok(guess);
+        }
         let new_guess = f(guess);
         let diff = initial
             - (guess - initial).powi(2) / (new_guess - N::from_f64(2.0).unwrap() * guess + initial);
